@@ -36,7 +36,7 @@ def s_to_st(b, f3):
     return out
 
 
-def run_case(spec):
+def _run_case(spec):
     res = common.new_result(spec)
     grids, _ = engine.grid_plan(spec)
     vals = []
@@ -73,3 +73,7 @@ def run_case(spec):
                    tags=[c04.mclass(spec['member']), spec['mode'], spec['order']],
                    scale_hints=hints)
     return res
+
+
+def run_case(spec):
+    return engine.refine_if_marginal(_run_case, spec, _run_case(spec))
